@@ -283,7 +283,17 @@ def run(ctx):
 
     def _normal_fn(point, surface):
         return np.array([np.asarray(point, dtype=np.float64).reshape(-1)[:3], [0., 0., 1.]])
-    cb_cases = [('plane', [0., 0., 5., 0., 0., 1.], 'hit', [[0.2, -0.1, 0.], [0., 0.6, 0.8]], True),
+    def _cap_fn(kind):          # a spherical cap z = z0 + R - sqrt(R^2 - x^2 - y^2): the sag is undefined (NaN) outside the aperture of radius R
+        def f(point, surface):
+            p = np.asarray(point, dtype=np.float64).reshape(-1)
+            rr = surface[1] ** 2 - p[0] * p[0] - p[1] * p[1]
+            v = p[2] - (surface[0] + surface[1] - (math.sqrt(rr) if rr >= 0 else float('nan')))
+            return {'python float': float(v), 'numpy scalar': np.float64(v), 'numpy array': np.array([v])}[kind]
+        return f
+    cb_cases = [('cap', [5.0, 2.0], 'hit', [[0.3, 0.2, 0.], [0., 0., 1.]], True),
+                ('cap', [5.0, 2.0], 'leaves_the_aperture', [[0.3, 0.2, 0.], [0.6, 0., 0.8]], False),
+                ('cap', [5.0, 2.0], 'outside_the_aperture', [[3.0, 0., 0.], [0., 0., 1.]], False),
+                ('plane', [0., 0., 5., 0., 0., 1.], 'hit', [[0.2, -0.1, 0.], [0., 0.6, 0.8]], True),
                 ('plane', [0., 0., 5., 0., 0., 1.], 'parallel', [[0., 0., 0.], [1., 0., 0.]], False),
                 ('plane', [0., 0., 5., 0., 0., 1.], 'zero_direction', [[0., 0., 0.], [0., 0., 0.]], False),
                 ('paraboloid', [0.1, 2.0], 'hit', [[0.3, 0.2, 0.], [0., 0., 1.]], True),
@@ -291,7 +301,7 @@ def run(ctx):
                 ('paraboloid', [0.1, 2.0], 'miss', [[0.3, 0.2, 0.], [0., 0., -1.]], False)]
     for surf_name, surf, name, ray, expect in cb_cases:
         for kind in ('python float', 'numpy scalar', 'numpy array'):
-            fn = (_plane_fn if surf_name == 'plane' else _parab_fn)(kind)
+            fn = {'plane': _plane_fn, 'paraboloid': _parab_fn, 'cap': _cap_fn}[surf_name](kind)
             rec = {'kind': 'parametric_callback', 'surface': surf_name, 'params': surf, 'name': name, 'ray': ray, 'callback_returns': kind}
             ctx.case(('parametric_callback', surf_name, name, kind), True)
             ctx.count('parametric_callback/returns ' + kind)
@@ -312,7 +322,8 @@ def run(ctx):
             if expect is False and not flagged:
                 d = float(np.asarray(dist, dtype=np.float64).reshape(-1)[0])
                 pt = np.array(ray[0]) + d * np.array(ray[1])
-                if abs(float(np.asarray(fn(pt, surf)).reshape(-1)[0])) > 1e-3:
+                resid_ = float(np.asarray(fn(pt, surf)).reshape(-1)[0])
+                if not abs(resid_) <= 1e-3:          # also a NaN residual: the reported point is not a point of the surface
                     ctx.violation('intersect_parametric reports distance %g for a %s ray (%s) whose point is not on the surface' % (d, name, surf_name), rec,
                                   {'fn': 'intersect_parametric', 'api': 'numpy', 'what': 'unflagged', 'case': 'callback'})
             if expect is True and flagged:
@@ -328,6 +339,10 @@ def run(ctx):
                 ('cylinder_np', 'hit', [[0, 0, -10.0], [0, 0, 1.0]], [0, 0, 0, 3.0, 0, 1.0, 0], True),
                 ('cylinder_np', 'parallel_to_axis_outside', [[10.0, 0, 0], [0, 1.0, 0]], [0, 0, 0, 3.0, 0, 1.0, 0], False),
                 ('cylinder_np', 'miss', [[10.0, 0, -10.0], [0, 0, 1.0]], [0, 0, 0, 3.0, 0, 1.0, 0], False)]
+    np_cases += [('sphere_np', 'nan_radius', [[0, 0, 0], [0, 0, 1.0]], [0, 0, 10.0, float('nan')], False),
+                 ('sphere_np', 'nan_centre', [[0, 0, 0], [0, 0, 1.0]], [float('nan'), 0, 10.0, 3.0], False),
+                 ('cylinder_np', 'nan_radius', [[0, 0, -10.0], [0, 0, 1.0]], [0, 0, 0, float('nan'), 0, 1.0, 0], False),
+                 ('sphere_np', 'inf_radius', [[0, 0, 0], [0, 0, 1.0]], [0, 0, 10.0, float('inf')], False)]
     for kind, name, ray, surf, expect in np_cases:
         rec = {'kind': kind, 'name': name, 'rays': [ray], 'surface': surf}
         st, res = wd.run(rec, limit=90)
@@ -338,6 +353,9 @@ def run(ctx):
         if 'exception' in res:
             ctx.violation('%s raised %s for %s' % (kind, res['exception'], name), rec, {'fn': kind, 'api': 'numpy', 'what': 'exception', 'case': name})
             continue
+        if res.get('flag') and not np.all(np.isfinite(np.asarray(res['distance'], dtype=np.float64))):
+            res = dict(res, flag=False)          # a non-finite distance is an explicit mark
+            ctx.count('np_solver/flagged by a non-finite distance')
         if expect is False and res.get('flag'):
             d = res['distance'][0]
             p = np.array(ray[0]) + d * np.array(ray[1])
